@@ -22,7 +22,7 @@ MEM_LIMIT = 24 << 30
 
 CLANG_FLAGS = ['-std=c++17', '-O0', '-Xclang', '-disable-O0-optnone', '-fno-exceptions', '-fno-rtti',
                '-ffp-contract=off', '-fno-access-control', '-fno-threadsafe-statics', '-D' + GUARD,
-               '-I' + os.path.join(LIB, 'include'), '-I' + VF, '-I' + os.path.join(VERIF, 'harness'),
+               '-I' + os.path.join(LIB, 'include'), '-I' + LIB, '-I' + VF, '-I' + os.path.join(VERIF, 'harness'),
                '-Wno-everything', '-S', '-emit-llvm']
 OPT_PASSES = 'function(mem2reg,simplifycfg,early-cse,adce,loop-simplify),globaldce'
 
@@ -39,16 +39,16 @@ class O:
     """One proof obligation: a harness function of a harness TU, with its bounds."""
     def __init__(self, name, tu, fn, unwind=2, unwindset=None, backend='sat', defs=(), cdefs=(), replace=None,
                  nsw=False, tiers='qt', timeout=None, flags=(), bound='', desc='', no_checks=False,
-                 usingz=False, known=None, object_bits=12, replay_sanitize=False, depth=None, olevel='O0', crosscheck=False):
+                 usingz=False, known=None, object_bits=12, replay_sanitize=False, depth=None, olevel='O0', crosscheck=False, lift=()):
         self.name = name; self.tu = tu; self.fn = fn; self.unwind = unwind; self.unwindset = unwindset or []
         self.backend = backend if isinstance(backend, (list, tuple)) else [backend]
         self.defs = tuple(defs) + (('USINGZ',) if usingz else ()); self.cdefs = tuple(cdefs)
         self.replace = dict(replace or {}); self.nsw = nsw; self.tiers = tiers
         self.timeout = timeout; self.flags = list(flags); self.bound = bound; self.desc = desc
         self.no_checks = no_checks; self.known = known; self.object_bits = object_bits
-        self.replay_sanitize = replay_sanitize; self.depth = depth; self.olevel = olevel; self.crosscheck = crosscheck
+        self.replay_sanitize = replay_sanitize; self.depth = depth; self.olevel = olevel; self.crosscheck = crosscheck; self.lift = tuple(lift)
     def variant(self):
-        h = hashlib.sha1(repr((self.defs, sorted(self.replace.items()), self.nsw, self.olevel)).encode()).hexdigest()[:8]
+        h = hashlib.sha1(repr((self.defs, sorted(self.replace.items()), self.nsw, self.olevel, self.lift)).encode()).hexdigest()[:8]
         return '%s-%s' % (os.path.splitext(self.tu)[0], h)
 
 def log(*a):
@@ -132,7 +132,7 @@ def build_variant(o):
         d = os.path.join(BUILD, v)
         os.makedirs(d, exist_ok=True)
         src = os.path.join(VERIF, 'harness', o.tu)
-        stamp = hashlib.sha1((src_hash() + file_hash([src]) + repr((o.defs, sorted(o.replace.items()), o.nsw, o.olevel))).encode()).hexdigest()
+        stamp = hashlib.sha1((src_hash() + file_hash([src]) + repr((o.defs, sorted(o.replace.items()), o.nsw, o.olevel, o.lift))).encode()).hexdigest()
         info_path = os.path.join(d, 'info.json')
         if os.path.exists(info_path):
             try:
@@ -147,23 +147,39 @@ def build_variant(o):
         t0 = time.time()
         ll = os.path.join(d, 'h.ll'); oll = os.path.join(d, 'h.opt.ll'); sll = os.path.join(d, 'h.sub.ll'); c = os.path.join(d, 'h.c')
         flags = list(CLANG_FLAGS)
+        passes = OPT_PASSES; extra_opt = []
         if o.olevel == 'O1':
             i0 = flags.index('-O0'); flags[i0:i0 + 3] = ['-O1', '-fno-vectorize', '-fno-slp-vectorize', '-fno-unroll-loops']
+        elif o.olevel == 'INL':
+            # O1 attributes without LLVM passes, then our own pipeline: inline everything (stubs are noinline), promote to SSA
+            i0 = flags.index('-O0'); flags[i0:i0 + 3] = ['-O1', '-Xclang', '-disable-llvm-passes']
+            passes = 'cgscc(inline),function(sroa,mem2reg,simplifycfg,early-cse,adce,loop-simplify),globaldce'
+            extra_opt = ['-inline-threshold=1000000']
         r = sh(['clang++-14'] + flags + ['-D%s' % x for x in o.defs] + [src, '-o', ll])
         if r.returncode != 0:
             raise BuildError('clang failed for %s:\n%s' % (o.tu, r.stdout[-4000:]))
-        r = sh(['opt-14', '-S', '-passes=' + OPT_PASSES, ll, '-o', oll])
+        text0, mapping = substitute(open(ll).read(), o.replace)
+        open(oll, 'w').write(text0)
+        r = sh(['opt-14', '-S', '-passes=' + passes] + extra_opt + [oll, '-o', sll])
         if r.returncode != 0:
             raise BuildError('opt failed for %s:\n%s' % (o.tu, r.stdout[-4000:]))
-        text, mapping = substitute(open(oll).read(), o.replace)
-        open(sll, 'w').write(text)
+        text = open(sll).read()
         cmd = [sys.executable, os.path.join(VF, 'ir2c.py'), sll, c, '--tu=' + o.tu]
         if o.nsw: cmd.append('--check-nsw')
+        lifted = []
+        if o.lift:
+            fnames = sorted(set(n.strip('"') for n in re.findall(r'^define [^@]*@("(?:[^"\\]|\\.)*"|[-a-zA-Z$._0-9]+)\(', text, re.M)))
+            dm = demangle_map(fnames)
+            for key in o.lift:
+                hits = [n for n in fnames if n == key or dm.get(n, '').startswith(key)]
+                if not hits: raise BuildError('lift: no function matches %r' % key)
+                lifted += hits
+            cmd.append('--lift=' + ','.join(lifted))
         r = sh(cmd)
         if r.returncode != 0:
             raise BuildError('ir2c failed for %s:\n%s' % (o.tu, r.stdout[-4000:]))
         mm = re.search(r'ir2c: (\d+) functions', r.stdout)
-        info = dict(stamp=stamp, dir=d, ll=ll, sll=sll, c=c, tu=o.tu, defs=list(o.defs), olevel=o.olevel, replaced=mapping,
+        info = dict(stamp=stamp, dir=d, ll=ll, sll=sll, c=c, tu=o.tu, defs=list(o.defs), olevel=o.olevel, replaced=mapping, lifted=[demangle_map(lifted).get(x, x) for x in lifted] if o.lift else [],
                     ir_functions=int(mm.group(1)) if mm else -1, ir_lines=text.count('\n'), c_lines=open(c).read().count('\n'),
                     front_s=round(time.time() - t0, 2))
         json.dump(info, open(info_path, 'w'))
@@ -287,7 +303,7 @@ def run_obligation(o, tier, outdir):
     info = build_variant(o)
     timeout = o.timeout or (90 if tier == 'quick' else 900)
     rec = dict(name=o.name, harness=o.fn, tu=o.tu, defs=list(o.defs), bound=o.bound, desc=o.desc, unwind=o.unwind,
-               replaced=info['replaced'], runs=[])
+               replaced=info['replaced'], lifted=info.get('lifted', []), runs=[])
     # witness (first backend, sat default is fine for witness unless pinned)
     wb = o.backend[0]
     with ThreadPoolExecutor(max_workers=1 + len(o.backend)) as ex:
@@ -387,6 +403,8 @@ def classify_failures(pid, o, rec, known):
                 outcome['violations'].append(dict(desc=desc + ' (native: ' + out.strip().split('\n')[-1] + ')', replay=path, obligation=o.name))
             else:
                 outcome['errors'].append('counterexample for %s did not reproduce natively (rc=%s): %s' % (desc, rc, out.strip()[-200:]))
+        elif desc.startswith('LIFT:'):
+            outcome['errors'].append('exact-double lifting side condition failed (harness range too wide or arithmetic changed): %s' % desc)
         elif 'unwinding assertion' in desc:
             rc, out = native_replay(o, info, path, timeout=20)
             if rc == 'timeout':
@@ -534,7 +552,7 @@ def write_evidence(pid, tier, seed, mod, recs, violations, knowns, ub_notes, err
     samples = [dict(obligation=r['name'], harness=r['harness'], tu=r['tu'], bound=r['bound'], what=r['desc'], unwind=r['unwind'],
                     verdict=r['verdict'], backend=r.get('backend'), solver_s=r.get('solver_s'), wall_s=r.get('seconds'),
                     properties_checked=r.get('nprops'), witness_reached=r['witness']['reached'], runs=r['runs'],
-                    abstractions=r['replaced'], why=r.get('why')) for r in recs]
+                    abstractions=r['replaced'], lifted_exact_double=r.get('lifted', []), why=r.get('why')) for r in recs]
     ev = dict(property_id=pid, tier=tier, seed=seed, level='model_checking',
               coverage=dict(
                   evaluations=max(len(recs), 0), distinct_nontrivial=len(conclusive),
